@@ -455,8 +455,21 @@ impl Scenario for C18 {
             let r = bus.process_message(m.clone());
             let end = (clock.now(), Instant::now());
             let slept = SLEPT_NS.with(|s| s.get()) - slept0;
+            // Paced = a data chunk, or an exchange in which the bus actually received an in-progress
+            // report (judged from the bytes the port handed out, not from the script: a tree that
+            // reads a reply where none is due is C16's business, not a pacing error).
+            let read_bytes: Vec<u8> = {
+                let w = shared.lock();
+                w.ops[o0..].iter().filter_map(|o| if let PortOp::Read { bytes, .. } = o { Some(bytes.clone()) } else { None }).flatten().collect()
+            };
+            let received = Frame::from_bytes(&read_bytes).ok().map(|f| to_static(&Message::from(f)));
+            if received != replies[i] {
+                // the bus did not read exactly the scripted reply: no verdict on this run
+                cx.discard("reply-not-read-as-scripted");
+                return cx.verdict();
+            }
             let paced = matches!(m, Message::SendData(..))
-                || matches!(&replies[i], Some(Message::ReportState(_, State::PageLoadInProgress | State::PageShowInProgress)));
+                || matches!(&received, Some(Message::ReportState(_, State::PageLoadInProgress | State::PageShowInProgress)));
             if r.is_err() {
                 cx.discard("exchange-failed");
                 return cx.verdict();
@@ -643,6 +656,20 @@ impl Scenario for C20 {
         let (ok, err, dev_after): (bool, Option<serial_core::ErrorKind>, Device) = match entry {
             0 => {
                 let r = flipdot_serial::configure_port(&mut port, caller_timeout);
+                if r.is_ok() && fail == CfgFail::None && cx.chance(1, 2) {
+                    // set the same port up again with another timeout: the second call counts too
+                    cx.probe("configured_twice");
+                    let t2 = Duration::from_millis(*cx.pick(&[250u64, 5000, 1, 123_456]));
+                    let r2 = flipdot_serial::configure_port(&mut port, t2);
+                    if r2.is_err() || port.dev.timeout != t2 || !port.dev.settings.is_19200_8n1_noflow() {
+                        cx.fail(
+                            "C20/second-setup-wrong",
+                            format!("configure_port called again with timeout {t2:?}: result {:?}, timeout now {:?}, settings {:?}", r2.map_err(|e| e.kind()), port.dev.timeout, port.dev.settings),
+                        );
+                        return cx.verdict();
+                    }
+                    port.dev.timeout = caller_timeout;
+                }
                 (r.is_ok(), r.err().map(|e| e.kind()), port.dev.clone())
             }
             1 => match SerialSignBus::try_new(port) {
